@@ -228,6 +228,33 @@ theorem int32_segmentations_differ :
     constGroup, constGroupAVX2, serialize, Run.bytes, uvarint_small, packBytes, packBits, toBits,
     bitsToBytes, fromBits]
 
+/-! ## The (repaired) Go boolean decoder reads every conformant stream -/
+
+/-- Mirror of `decodeBits` after the fix "DecodeBoolean expands RLE runs per value": on every
+conformant width-1 stream (any segmentation, RLE runs of any length ≥ 1 — multiples of 8 or not —,
+any stored value byte: `01`, `ff`, ..., bit-packed runs at any bit offset) it returns exactly the
+encoded values. (`dst` is modelled as a bit list; the byte-level shifting is tied by L2.) -/
+theorem decodeBoolean_of_valid {xs bs : List Nat} (h : ValidRleGo xs bs) :
+    goDecodeBitValues bs = .ok xs := by
+  obtain ⟨rs, hwf, hgo, rfl, rfl⟩ := h
+  simp only [goDecodeBitValues]
+  rw [goLoop_serialize rs _ [] hwf hgo (by have := serialize_length_ge rs; omega)]
+  simp [Except.map, goBits_values rs hwf]
+
+/-- the bytes returned are those values packed 8 per byte, LSB first, zero padded -/
+theorem decodeBoolean_bytes_of_valid {xs bs : List Nat} (h : ValidRleGo xs bs) :
+    ∃ bits : List Bool, bits.map b2n = xs ∧ goDecodeBits bs = .ok (bitsToBytes bits.length bits) := by
+  obtain ⟨rs, hwf, hgo, rfl, rfl⟩ := h
+  refine ⟨(rs.map Run.goBits).flatten, goBits_values rs hwf, ?_⟩
+  simp only [goDecodeBits]
+  rw [goLoop_serialize rs _ [] hwf hgo (by have := serialize_length_ge rs; omega)]
+  simp [Except.map]
+
+/-- the input of the fix commit: 8 × true stored as `01` -/
+example : ValidRleGo [1, 1, 1, 1, 1, 1, 1, 1] [0x10, 0x01] :=
+  ⟨[.rle 8 [1]], by simp [Run.WF], by simp [Run.GoOK], by simp [runsValues, Run.values, leNat],
+    by simp [serialize, Run.bytes, uvarint_small]⟩
+
 /-! ## Legacy BIT_PACKED levels (encoding/bitpacked) -/
 
 /-- The spec decoder of the deprecated BIT_PACKED encoding (values and bytes most significant bit
